@@ -3,6 +3,8 @@
 Imports only Prim/Gen/Model/Spec — no Mathlib — so it links as a native executable.
 -/
 import Driver.Proto
+import Shp.Spec.Gen
+import Shp.Spec.Expected
 open Shp Shp.Proto
 
 def toFloat (f : F64) : Float := Float.ofBits f.bits
@@ -113,6 +115,21 @@ def runCase (verb : String) : P String := do
     | .ok st =>
       let outs := (st.iterAll o tg st.fuel).2
       pure ("open ok" ++ String.join (outs.map fun r => " ; " ++ showROut r))
+  | "readflat" => do
+    let tg ← target
+    let shp ← bytes
+    let shxTok ← tok
+    let shx : Option Bytes := if shxTok = "none" then none else bytesOfHex shxTok
+    match RState.open shp shx with
+    | .error e => pure ("open " ++ showROutFlat e)
+    | .ok st =>
+      let outs := (st.iterAll o tg st.fuel).2
+      pure ("open ok" ++ String.join (outs.map fun r => " ; " ++ showROutFlat r))
+  | "specdecode" => do
+    let shp ← bytes
+    match Spec.decodeFile shp with
+    | some f => pure (Spec.flatFile true f)
+    | none => pure "rejected"
   | "rhist" => do
     let tg ← target
     let shp ← bytes
@@ -174,7 +191,55 @@ partial def loop (h : IO.FS.Stream) (out : IO.FS.Stream) : IO Unit := do
   out.putStrLn (processLine line)
   loop h out
 
-def main : IO Unit := do
-  let stdin ← IO.getStdin
-  let stdout ← IO.getStdout
-  loop stdin stdout
+/-- `open ok ; ok <flat shape> ; ...` from the theorem's own `Rec.expected` -/
+def expectFromTheorem (recs : List Spec.Rec) : String :=
+  "open ok" ++ String.join (recs.map fun r => " ; ok " ++ flatShape (r.expected o))
+
+/-- `shpdriver gen spec|perm <seed> <n>`: spec-conformant files + what a conforming reader returns -/
+def genMain (kind : String) (seed n : Nat) : IO Unit := do
+  let mut rng : Spec.Rng := ⟨UInt64.ofNat (seed * 2654435761 + 12345)⟩
+  let mut stats : List (String × Nat) := []
+  let bump := fun (st : List (String × Nat)) (k : String) =>
+    match st.find? (·.1 = k) with
+    | some _ => st.map fun (a, b) => if a = k then (a, b + 1) else (a, b)
+    | none => (k, 1) :: st
+  for i in [0:n] do
+    if kind = "spec" then
+      let (f, r) := Spec.genFile rng
+      rng := r
+      let bytes := Spec.encodeFile f
+      let id := s!"C03-{i}"
+      IO.println s!"CASE {id}f readflat generic {Spec.hexOf bytes} none"
+      IO.println s!"EXPECT {id}f {expectFromTheorem f.records}"
+      -- the whitepaper-side rendering must say the same thing (two independent expectation printers)
+      if expectFromTheorem f.records ≠ Spec.expectRead f.records then
+        IO.println s!"EXPECT {id}x spec-printers-disagree"
+      IO.println s!"CASE {id}r read generic {Spec.hexOf bytes} none"
+      stats := bump stats s!"type.{f.typeCode}"
+      stats := bump stats s!"records.{f.records.length}"
+      for rc in f.records do
+        if rc.typeCode = 0 then stats := bump stats "rec.null"
+        else if !rc.mPresent then stats := bump stats "rec.m-absent" else stats := bump stats "rec.m-present"
+        if rc.parts.isEmpty then stats := bump stats "rec.zero-parts"
+        if rc.parts.any (·.length ≤ 1) then stats := bump stats "rec.part-with-0-or-1-vertex"
+      if !f.trailing.isEmpty then stats := bump stats "file.trailing-bytes"
+    else
+      let ((shp, shx, recs), r) := Spec.genPermuted rng
+      rng := r
+      let id := s!"C14-{i}"
+      IO.println s!"CASE {id}f readflat generic {Spec.hexOf shp} {Spec.hexOf shx}"
+      IO.println s!"EXPECT {id}f {expectFromTheorem recs}"
+      let n := recs.length
+      let nths := String.join ((List.range (n + 1)).reverse.map fun k => s!" nth {k}")
+      IO.println s!"CASE {id}h rhist generic {Spec.hexOf shp} {Spec.hexOf shx} {n + 7} count 0{nths} it 1 hint 0 it 99 seek 1 it 99"
+      stats := bump stats s!"records.{n}"
+  for (k, v) in stats do
+    IO.println s!"STAT {k} {v}"
+
+def main (args : List String) : IO Unit := do
+  match args with
+  | ["gen", kind, seed, n] => genMain kind seed.toNat! n.toNat!
+  | _ =>
+    let stdin ← IO.getStdin
+    let stdout ← IO.getStdout
+    loop stdin stdout
